@@ -220,3 +220,39 @@ Proof.
   intros H. unfold isqrt_lo, isqrt_hi. pose proof (Z.sqrt_spec n H) as S.
   replace (Z.succ (Z.sqrt n)) with (Z.sqrt n + 1) in S by lia. exact S.
 Qed.
+
+(** * constructor forwarding (AST fact): base parameter j receives the subclass parameter of the
+    same name *)
+Definition ADAPTIVE_PARAM : string := "bUseAdaptiveInterpolation".
+Definition forwards_all (base ctor : list string) (fw : list (option nat)) : bool :=
+  (Nat.eqb (List.length fw) (List.length base) &&
+   forallb (fun p : string * option nat =>
+              match snd p with
+              | Some i => match nth_error ctor i with
+                          | Some nm => String.eqb nm (fst p)
+                          | None => false
+                          end
+              | None => false
+              end) (combine base fw))%bool.
+
+Lemma forwards_all_sound base ctor fw : forwards_all base ctor fw = true ->
+  forall j name, nth_error base j = Some name ->
+    exists i, nth_error fw j = Some (Some i) /\ nth_error ctor i = Some name.
+Proof.
+  unfold forwards_all. rewrite andb_true_iff. intros [L F] j name Hj.
+  apply Nat.eqb_eq in L.
+  assert (Hlt : (j < List.length fw)%nat).
+  { rewrite L. apply nth_error_Some. congruence. }
+  destruct (nth_error fw j) as [o|] eqn:Ef; [|apply nth_error_None in Ef; lia].
+  assert (Hin : In (name, o) (combine base fw)).
+  { apply nth_error_In with j. clear - Ef Hj.
+    revert fw j Ef Hj. induction base as [|b base IH]; intros fw j Ef Hj.
+    - destruct j; discriminate.
+    - destruct fw as [|f fw]; [destruct j; discriminate|]. destruct j; simpl in *.
+      + congruence.
+      + apply IH; assumption. }
+  pose proof (forallb_In _ _ F _ Hin) as C. simpl in C.
+  destruct o as [i|]; [|discriminate]. exists i. split; [reflexivity|].
+  destruct (nth_error ctor i) as [nm|]; [|discriminate].
+  apply String.eqb_eq in C. congruence.
+Qed.
